@@ -12,7 +12,8 @@
 //!   env  case = ( ncpus ( none|fifo|fds|garbage arg ) burst discard )   the real `Client::new()` (what the server
 //!        calls) in a process pinned to ncpus CPUs whose environment carries a make jobserver of that shape
 //!        prints ( limited pool granted_at_once empty_acquireds )
-//! request kinds: 0 bare acquire; 1/2 AsyncCommand::spawn + Child::wait, exit 0 / 3; 3 unspawnable;
+//! request kinds: 0 bare acquire; 1/2 AsyncCommand::spawn + Child::wait, exit 0 / 3;
+//!   3 / 9 / 10 / 11 / 12 unstartable: no such file, not executable, a directory, bad interpreter, busy (ETXTBSY);
 //!   4..8 util::run_input_output: 4/5 exits 0 / 1 while a grandchild keeps its stdout+stderr, 6 writes 300 kB to
 //!   both pipes, 7 is fed 300 kB it never reads, 8 kills itself.
 use sccache::verif_hooks::jobserver::{verif_trace, Acquired, Client};
@@ -147,7 +148,7 @@ fn hook(ev: &'static str) {
         "receive" => {
             t.evs.push(Ev::Receive(r));
             t.phase.insert(r, Phase::Held);
-            if t.kind.get(&r).copied().unwrap_or(0) >= 4 {
+            if (4..=8).contains(&t.kind.get(&r).copied().unwrap_or(0)) {
                 // run_input_output: acquire and spawn of /bin/sh happen in the same poll, nothing of ours in between
                 t.evs.push(Ev::Start(r));
                 t.phase.insert(r, Phase::Running);
@@ -274,6 +275,85 @@ fn kill_all_grandchildren() {
     }
 }
 
+fn spawn_fails(kind: u64) -> bool {
+    kind == 3 || (9..=12).contains(&kind)
+}
+
+/// Executables the harness keeps open for writing for the rest of the case (exec fails with ETXTBSY meanwhile).
+static BUSY: Mutex<Vec<std::fs::File>> = Mutex::new(Vec::new());
+
+fn release_busy() {
+    BUSY.lock().unwrap_or_else(|e| e.into_inner()).clear();
+}
+
+/// A "compiler" that cannot be started: 3 no such file, 9 not executable, 10 a directory, 11 a script whose
+/// interpreter does not exist, 12 an executable held open for writing.
+fn unstartable(r: u64, kind: u64) -> Option<String> {
+    use std::os::unix::fs::PermissionsExt;
+    let p = format!("{}.exe", marker(r));
+    let script = b"#!/bin/sh\nexit 0\n";
+    match kind {
+        3 => return Some("/nonexistent/verif-c16-no-such-compiler".to_string()),
+        9 => {
+            let _ = std::fs::write(&p, script);
+            let _ = std::fs::set_permissions(&p, std::fs::Permissions::from_mode(0o644));
+        }
+        10 => {
+            let _ = std::fs::create_dir_all(&p);
+        }
+        11 => {
+            let _ = std::fs::write(&p, b"#!/nonexistent/verif-c16-no-such-interpreter\nexit 0\n");
+            let _ = std::fs::set_permissions(&p, std::fs::Permissions::from_mode(0o755));
+        }
+        12 => {
+            let _ = std::fs::write(&p, script);
+            let _ = std::fs::set_permissions(&p, std::fs::Permissions::from_mode(0o755));
+            if let Ok(f) = std::fs::OpenOptions::new().append(true).open(&p) {
+                BUSY.lock().unwrap_or_else(|e| e.into_inner()).push(f);
+            }
+        }
+        _ => return None,
+    }
+    Some(p)
+}
+
+static SLOW_SPAWNS: std::sync::atomic::AtomicU64 = std::sync::atomic::AtomicU64::new(0);
+
+/// How long a request may sit on a token with neither a process started nor the spawn reported as failed.  In
+/// the real path acquire -> spawn -> (Child | error) happens inside one poll.
+fn spawn_bound() -> Duration {
+    Duration::from_millis(if SLOW_SPAWNS.load(Ordering::SeqCst) > 0 { 300 } else { 3000 })
+}
+
+fn spawn_overdue() {
+    SLOW_SPAWNS.fetch_add(1, Ordering::SeqCst);
+    with(|g| g.evs.push(Ev::Other("token_held_without_process_or_spawn_error")));
+}
+
+/// mt leg: a request of a process kind that holds a token must start its process or fail within `spawn_bound()`.
+async fn watch_spawn(r: u64) {
+    let t0 = Instant::now();
+    let mut held_at: Option<Instant> = None;
+    loop {
+        match phase_of(r) {
+            Some(Phase::Held) => {
+                let t = *held_at.get_or_insert_with(Instant::now);
+                if t.elapsed() > spawn_bound() {
+                    spawn_overdue();
+                    release_busy(); // lets a retry loop end so that the case itself can end
+                    return;
+                }
+            }
+            Some(Phase::Queued) | Some(Phase::Slot) | None => {}
+            _ => return,
+        }
+        if t0.elapsed() > Duration::from_secs(30) {
+            return;
+        }
+        tokio::time::sleep(Duration::from_millis(2)).await;
+    }
+}
+
 static LATE_RELEASES: std::sync::atomic::AtomicU64 = std::sync::atomic::AtomicU64::new(0);
 
 /// How long after the compiler PROCESS has ended (its marker exists) the token may take to be back.  The real
@@ -346,8 +426,11 @@ fn work(client: Client, r: u64, kind: u64, dur_ms: u64, hold: bool, watch: bool)
                 }
                 Err(_) => Outcome::AcquireErr,
             }
-        } else if kind <= 3 {
-            let prog = if kind == 3 { "/nonexistent/verif-c16-no-such-compiler" } else { "/bin/sh" };
+        } else if kind <= 3 || kind >= 9 {
+            let prog = unstartable(r, kind).unwrap_or_else(|| "/bin/sh".to_string());
+            if watch && spawn_fails(kind) {
+                tokio::spawn(watch_spawn(r));
+            }
             let mut cmd = AsyncCommand::new(prog, client);
             // the process leaves a marker just before it ends: a token given up by `wait` while the marker is
             // missing was given up while the process was still running
@@ -465,6 +548,7 @@ fn marker(r: u64) -> String {
 
 fn reset() {
     CASE_NO.fetch_add(1, Ordering::SeqCst);
+    release_busy();
     let _ = std::fs::remove_dir_all(marker_dir());
     let _ = std::fs::create_dir_all(marker_dir());
     let mut g = G.lock().unwrap_or_else(|e| e.into_inner());
@@ -504,8 +588,33 @@ fn det(case: &Sx) -> Sx {
                     }
                     Poll::Ready(_) => {}
                     Poll::Pending => {
-                        let running = with(|g| g.phase.get(&r) == Some(&Phase::Running));
-                        slots.insert(r, if running { Slot::Child(t) } else { Slot::Pending(t) });
+                        // a process request that has its token must have started its process or reported the
+                        // spawn error in that very poll; give it `spawn_bound()` before calling it overdue
+                        let mut gone = false;
+                        if phase_of(r) == Some(Phase::Held) {
+                            let t0 = Instant::now();
+                            loop {
+                                if let Poll::Ready(_) = futures::poll!(&mut t) {
+                                    gone = true;
+                                    break;
+                                }
+                                if phase_of(r) != Some(Phase::Held) {
+                                    break;
+                                }
+                                if t0.elapsed() > spawn_bound() {
+                                    spawn_overdue();
+                                    break;
+                                }
+                                tokio::time::sleep(Duration::from_millis(1)).await;
+                            }
+                        }
+                        if gone || phase_of(r) == Some(Phase::Held) {
+                            // overdue: dropping gives the token back (recorded as the spawn failure it should have been)
+                            drop(t);
+                        } else {
+                            let running = with(|g| g.phase.get(&r) == Some(&Phase::Running));
+                            slots.insert(r, if running { Slot::Child(t) } else { Slot::Pending(t) });
+                        }
                     }
                 }
             }
